@@ -307,8 +307,18 @@ func c06Same(a, b sftp.VerifPkt) bool {
 
 func checkC06(c *lib.Ctx) {
 	r := c.R
-	r.Rule = "every packet kind of both codecs (requests, responses, init/version, the four OpenSSH extensions, statvfs reply) x generated field values (ids and offsets at 0, 2^32, 2^63, 2^64-1; empty, long and non-UTF-8 strings; payloads of 0..1000 bytes; all 32 attribute-flag subsets; 0..3 extended pairs and name entries): the frame from packet.go, from the filexfer codec, from the independent harness codec and from the Lean interpreter of the regenerated layout tables must be byte-identical, the length prefix must equal the bytes that follow, and each decoder must give back the packet; non-trivial = packet with a boundary value, non-empty attribute block, payload or list"
+	r.Rule = "every packet kind of both codecs (requests, responses, init/version, the four OpenSSH extensions, statvfs reply) x generated field values (ids and offsets at 0, 2^32, 2^63, 2^64-1; empty, long and non-UTF-8 strings; payloads of 0..1000 bytes; all 32 attribute-flag subsets; 0..3 extended pairs and name entries): the frame from packet.go, from the filexfer codec, from the independent harness codec and from the Lean interpreter of the regenerated layout tables must be byte-identical, the length prefix must equal the bytes that follow, and each decoder must give back the packet, both decoders must report the same fields for the same bytes; DESTINATIONS THAT ARE NOT ZERO (c06_reuse.go): one filexfer / packet.go value decodes sequences of frames (long, short, medium payloads and lists in all six orders), byte-slice fields pre-populated as make([]byte, l, c) for l, c in {0, 1, n-1, n, n+1, 2n, 2n+7} around the payload length n, Buffer.ConsumeByteSliceCopy / Buffer.UnmarshalBinary on such hints directly, RequestPacket/RawPacket.ReadFrom with one backing slice around the frame lengths, recvPacket + makePacket through one allocator with pages released and reused: every decode must equal the decode of the same bytes into a fresh zero value and re-encode to the frame; non-trivial = packet with a boundary value, non-empty attribute block, payload or list"
 	sftp.VerifFxRegisterExtensions()
+	if c.Replay != "" {
+		var in c06ReuseIn
+		if err := lib.ReadReplay(c.Replay, &in); err != nil || in.Mode == "" {
+			r.Fail(lib.Failure{Kind: "tie", Key: "replay", What: fmt.Sprint("only inputs with a mode (decode-into-used-value and cross-codec cases) can be replayed: ", err)})
+			return
+		}
+		r.Case(fmt.Sprintf("%+v", in), true)
+		c06RunReuse(c, in)
+		return
+	}
 	g := c06Gen{c}
 	per := 64
 	if c.Tier == "thorough" {
@@ -366,6 +376,10 @@ func checkC06(c *lib.Ctx) {
 				impl = append(impl, lib.Hex(got))
 			}
 			body := want[5:]
+			if k.Request || k.Name == "Status" || k.Name == "Attrs" || k.Name == "Data" {
+				// the same bytes through both decoders, compared with each other
+				c06RunReuse(c, c06ReuseIn{Mode: "cross", Kind: k.Name, Frames: []string{lib.Hex(want)}, C: -1})
+			}
 			// decoders
 			if k.Request {
 				dv, err := sftp.VerifDecodeRequest(k.Typ, append([]byte(nil), body...))
@@ -398,5 +412,6 @@ func checkC06(c *lib.Ctx) {
 			}
 		}
 	}
+	c06ReuseAll(c)
 	c.Compare("c06", lines, impl)
 }
